@@ -219,6 +219,7 @@ def gen_batch(rng, trx, sites_of):
             # the twin comes right after its model, right before it, or anywhere
             pos = G.pick(rng, [reqs.index(src) + 1, reqs.index(src), rng.randint(0, len(reqs))])
             reqs.insert(pos, t)
+    S.intify(rng, reqs)
     return reqs
 
 
